@@ -324,8 +324,27 @@ class Interp:
         if is_(r'^<String as PartialEq>::eq$') or is_(r'^<String as PartialEq<.*>>::eq$'):
             M(c); a = rd(args[0].cell, args[0].path); b = rd(args[1].cell, args[1].path)
             return a == b
-        if is_(r'^HashMap::<String, Vec<.*>>::insert$'):
-            M(c); m = rd(args[0].cell, args[0].path); m.items.append((args[1], args[2])); return Enum('None', [])
+        if is_(r'^HashMap::<String, .*>::insert$'):
+            M(c); m = rd(args[0].cell, args[0].path)
+            for n_, (kk, cell) in enumerate(m.items):
+                same = z3.simplify(kk == args[1])
+                if z3.is_true(same):
+                    old_v = cell[0] if isinstance(cell, list) else cell
+                    m.items[n_] = (kk, [args[2]] if isinstance(cell, list) else args[2])
+                    return Enum('Some', [old_v])
+                if not z3.is_false(same):
+                    raise Unsupported('symbolic key into a String-keyed map (insert)')
+            m.items.append((args[1], [args[2]] if is_(r'^HashMap::<String, (bool|std::option::Option<.*>|Option<.*>)>') else args[2])); return Enum('None', [])
+        if is_(r'^HashMap::<.*>::clear$'): M(c); rd(args[0].cell, args[0].path).items = []; return Struct('tuple', [])
+        if is_(r'Option::<.*>::unwrap_or$'):
+            M(c); v = args[0]
+            if isinstance(v, SymOpt):
+                if z3.is_expr(v.val) and z3.is_expr(args[1]):
+                    return z3.If(v.is_some, v.val, args[1])
+                return v.val if s.run.branch([v.is_some, z3.Not(v.is_some)]) == 0 else args[1]
+            return v.fields[0] if v.name == 'Some' else args[1]
+        if is_(r'<impl u8>::wrapping_add$'):
+            M(c); a, b = args; return a + b
         if is_(r'^(std::option::)?Option::<.*>::map::<'):
             M(c); v = args[0]
             if v.name == 'None':
@@ -337,7 +356,7 @@ class Interp:
             it = s.find_fn(lambda it: it.name.endswith('::' + c.split('::')[-1]) and 'DataArchetype' in it.header, c)
             return summarise(s, it, args)
         if is_(r'as ToString>::to_string$'): M(c); return rd(args[0].cell, args[0].path)
-        if is_(r'^HashMap::<String, bool>::get::<String>$'):
+        if is_(r'^HashMap::<String, (bool|std::option::Option<.*>|Option<.*>)>::get::<(String|str)>$'):
             M(c); m = rd(args[0].cell, args[0].path); k = rd(args[1].cell, args[1].path)
             for kk, cell in m.items:
                 same = z3.simplify(kk == k)
